@@ -3,6 +3,7 @@ package main
 import (
 	"fmt"
 	"go/token"
+	"sort"
 	"strings"
 
 	"golang.org/x/tools/go/ssa"
@@ -83,7 +84,9 @@ func ruleC10(c *Ctx) {
 			}
 			// held: for stores use the nearest preceding call in the block? use path query instead
 			ws := Query{Fn: fn, IsSite: func(in ssa.Instruction) bool { return in == s },
-				Gen:  func(in ssa.Instruction) bool { return isPlainCall(in) && callMatches(in, "(*sync.Mutex).Lock") && strings.HasSuffix(NewRenderer(fn).V(in.(*ssa.Call).Call.Args[0]), ".revisionLock") },
+				Gen: func(in ssa.Instruction) bool {
+					return isPlainCall(in) && callMatches(in, "(*sync.Mutex).Lock") && strings.HasSuffix(NewRenderer(fn).V(in.(*ssa.Call).Call.Args[0]), ".revisionLock")
+				},
 				Kill: func(in ssa.Instruction) bool { return isPlainCall(in) && callMatches(in, "(*sync.Mutex).Unlock") }}.Run()
 			if len(ws) == 0 {
 				c.OK(rule, key+" | under revisionLock", c.P.InstrPos(s), "revisionLock acquired on every path and not released before the access", true)
@@ -250,18 +253,18 @@ func ruleC12(c *Ctx) {
 	const rule = "C12-PERSIST"
 	c.Doc(rule, "in non-constructor code of package replica every store to a persisted field of a *disk (Parent, Removed, UserCreated, Created, RevisionCounter, Name) is followed on all success paths by an encodeToFile call, and every store to a persisted field of r.info (Size, Head, Checkpoint, CloneStatus, Rebuilding, UUID, Parent) by encodeToFile(.., volume.meta) or is itself made only after that commit (r.info = info); management operations that name a disk (RemoveDiffDisk, ReplaceDisk, revertDisk, PrepareRemoveDisk) act only on names that were validated against the in-memory chain or the on-disk metadata")
 	exempt := map[string]string{
-		"replica.construct":           "constructor: fills r.info before the chain is opened; ends with writeVolumeMetaData",
-		fRep + "readDiskData":         "open-time metadata walk: reads the persisted value (Name is the file name)",
-		fRep + "readMetadata":         "open-time metadata walk",
-		fRep + "Reload":               "copies mode/dirty flag into the freshly constructed instance",
-		"replica.CreateTempReplica":   "temporary in-memory instance",
-		fSrv + "initUUID":             "temporary instance; persisted by writeVolumeMetaData (error exception F13)",
-		fRep + "insertBackingFile":    "backing file pseudo-disk, never persisted",
-		fRep + "removeDiskNode":       "info.Parent is re-derived from the head's metadata on open",
-		fRep + "WriteAt":              "info.Dirty is written at open/close",
-		fRep + "Sync":                 "info.Dirty",
-		fRep + "Unmap":                "info.Dirty",
-		fRep + "createNewHead":        "fills a fresh local disk value that is encoded by the same function",
+		"replica.construct":         "constructor: fills r.info before the chain is opened; ends with writeVolumeMetaData",
+		fRep + "readDiskData":       "open-time metadata walk: reads the persisted value (Name is the file name)",
+		fRep + "readMetadata":       "open-time metadata walk",
+		fRep + "Reload":             "copies mode/dirty flag into the freshly constructed instance",
+		"replica.CreateTempReplica": "temporary in-memory instance",
+		fSrv + "initUUID":           "temporary instance; persisted by writeVolumeMetaData (error exception F13)",
+		fRep + "insertBackingFile":  "backing file pseudo-disk, never persisted",
+		fRep + "removeDiskNode":     "info.Parent is re-derived from the head's metadata on open",
+		fRep + "WriteAt":            "info.Dirty is written at open/close",
+		fRep + "Sync":               "info.Dirty",
+		fRep + "Unmap":              "info.Dirty",
+		fRep + "createNewHead":      "fills a fresh local disk value that is encoded by the same function",
 	}
 	n := 0
 	for _, fn := range pkgFuncs(c.P, "replica") {
@@ -533,34 +536,34 @@ func ruleC16Repl(c *Ctx) {
 func ruleRevParse(rule string) ruleFn {
 	return func(c *Ctx) {
 		c.Doc(rule, "every strconv.ParseInt that decodes a revision count (operand or enclosing function names a RevCount / RevisionCounter / Counter) uses base 10 and 64 bits: narrower widths saturate large counts, which then compare equal in the election / conflict detection")
-	n := 0
-	for _, fn := range prodFns(c.P) {
-		R := NewRenderer(fn)
-		for _, in := range AnyCallsTo(fn, "strconv.ParseInt") {
-			cl, ok := in.(*ssa.Call)
-			if !ok {
-				continue
-			}
-			a0 := R.V(cl.Call.Args[0])
-			rel := strings.Contains(a0, "RevCount") || strings.Contains(a0, "RevisionCounter") || strings.Contains(a0, ".Counter") ||
-				strings.Contains(FnName(fn), "RevisionCounter") || strings.Contains(FnName(fn), "UpdateCloneInfo")
-			if !rel {
-				continue
-			}
-			n++
-			base, _ := intConst(cl.Call.Args[1])
-			bits, okb := intConst(cl.Call.Args[2])
-			key := FnName(fn) + " | ParseInt(" + a0 + ")"
-			if base == 10 && okb && (bits == 64 || bits == 0) {
-				c.OK(rule, key, c.P.InstrPos(in), "revision count parsed as a 64-bit decimal", false)
-			} else {
-				c.Bad(rule, key, c.P.InstrPos(in), fmt.Sprintf("revision count parsed with base %d bitSize %d: counts above the range saturate and compare equal", base, bits), nil)
+		n := 0
+		for _, fn := range prodFns(c.P) {
+			R := NewRenderer(fn)
+			for _, in := range AnyCallsTo(fn, "strconv.ParseInt") {
+				cl, ok := in.(*ssa.Call)
+				if !ok {
+					continue
+				}
+				a0 := R.V(cl.Call.Args[0])
+				rel := strings.Contains(a0, "RevCount") || strings.Contains(a0, "RevisionCounter") || strings.Contains(a0, ".Counter") ||
+					strings.Contains(FnName(fn), "RevisionCounter") || strings.Contains(FnName(fn), "UpdateCloneInfo")
+				if !rel {
+					continue
+				}
+				n++
+				base, _ := intConst(cl.Call.Args[1])
+				bits, okb := intConst(cl.Call.Args[2])
+				key := FnName(fn) + " | ParseInt(" + a0 + ")"
+				if base == 10 && okb && (bits == 64 || bits == 0) {
+					c.OK(rule, key, c.P.InstrPos(in), "revision count parsed as a 64-bit decimal", false)
+				} else {
+					c.Bad(rule, key, c.P.InstrPos(in), fmt.Sprintf("revision count parsed with base %d bitSize %d: counts above the range saturate and compare equal", base, bits), nil)
+				}
 			}
 		}
-	}
-	if n < 5 {
-		c.Undecided(rule, "vacuity-floor ParseInt", "", fmt.Sprintf("only %d revision-count parse sites found", n))
-	}
+		if n < 5 {
+			c.Undecided(rule, "vacuity-floor ParseInt", "", fmt.Sprintf("only %d revision-count parse sites found", n))
+		}
 	}
 }
 
@@ -575,24 +578,37 @@ func ruleC12Chain(c *Ctx) {
 	if cd == nil || ol == nil {
 		return
 	}
-	find := func(fn *ssa.Function, lenTerm string) (int64, bool) {
+	// accept edges  -len(X) + MAX - k >= 0 : MAX is whatever single term both functions compare
+	// their chain length with (a constant selection, a field, a helper call)
+	find := func(fn *ssa.Function, lenTerm string) map[string]int64 {
 		R := NewRenderer(fn)
+		out := map[string]int64{}
 		for _, ea := range allAtoms(fn, R) {
 			a := ea.Atom
-			if a.Op != ">=0" {
+			if a.Op != ">=0" || a.L.T[lenTerm] != -1 || len(a.L.T) != 2 {
 				continue
 			}
-			// accept edge:  -len(X) + MAX - k >= 0
-			if a.L.T[lenTerm] == -1 && a.L.T["phi{1024 | types.MaxChainLength}"] == 1 && len(a.L.T) == 2 {
-				return -a.L.K, true
+			for t, co := range a.L.T {
+				if t != lenTerm && co == 1 && t != "*" {
+					out[t] = -a.L.K
+				}
 			}
 		}
-		return 0, false
+		return out
 	}
-	c1, ok1 := find(cd, "len($0.activeDiskData)")
-	c2, ok2 := find(ol, "len("+fRep+"Chain($0)#0)")
-	if !ok1 || !ok2 {
-		c.Undecided(rule, "chain length limits", "", "could not read the two chain-length guards")
+	m1 := find(cd, "len($0.activeDiskData)")
+	m2 := find(ol, "len("+c.P.callTerm(fRep+"Chain", "$0")+"#0)")
+	var maxTerm string
+	var c1, c2 int64
+	n := 0
+	for t, k := range m1 {
+		if k2, ok := m2[t]; ok {
+			maxTerm, c1, c2 = t, k, k2
+			n++
+		}
+	}
+	if n != 1 {
+		c.Undecided(rule, "chain length limits", "", fmt.Sprintf("could not read the two chain-length guards against a common maximum (createDisk compares with %v, openLiveChain with %v)", keysOf(m1), keysOf(m2)))
 		return
 	}
 	// createDisk: accepts iff A + c1 <= M with A = files+1 (index 0 unused) -> files_after = A <= M - c1
@@ -606,7 +622,8 @@ func ruleC12Chain(c *Ctx) {
 		R := NewRenderer(rm)
 		okr := false
 		for _, r := range Returns(rm) {
-			if R.V(r.Results[0]) == "(-len($0.activeDiskData) +phi{1024 | types.MaxChainLength})" {
+			lin := R.Lin(strip(r.Results[0]))
+			if len(lin.T) == 2 && lin.T["len($0.activeDiskData)"] == -1 && lin.T[maxTerm] == 1 && lin.K == 0 {
 				okr = true
 			}
 		}
@@ -704,4 +721,13 @@ func ruleC12Publish(c *Ctx) {
 		}
 	}
 	c.Floor(rule, 6)
+}
+
+func keysOf(m map[string]int64) []string {
+	var out []string
+	for k := range m {
+		out = append(out, k)
+	}
+	sort.Strings(out)
+	return out
 }
